@@ -1,6 +1,6 @@
 //! spec -> impl: execute cases / behaviours emitted by TLC.
 use serde_json::Value;
-use sos_verif_harness::{eventlog_world, summary::Summary, tree_world};
+use sos_verif_harness::{account_world, eventlog_world, summary::Summary, tree_world};
 use std::io::BufRead;
 
 fn read_lines(path: &str) -> Vec<Value> {
@@ -48,6 +48,33 @@ fn main() {
                 for path in read_lines(&args[2]) {
                     if let Err(e) = eventlog_world::run_path(
                         &path, &kind_map, &backends, &scratch, &mut out, &prop,
+                    )
+                    .await
+                    {
+                        eprintln!("harness error: {e:?}");
+                        std::process::exit(3);
+                    }
+                }
+            });
+        }
+        "account" => {
+            // replay account <paths.ndjson> <backends> <scratch> <prop>
+            let backends: Vec<&'static str> = args[3]
+                .split(',')
+                .map(|b| if b == "db" { "db" } else { "fs" })
+                .collect();
+            let scratch = std::path::PathBuf::from(&args[4]);
+            let prop = args.get(5).cloned().unwrap_or_default();
+            sos_verif_harness::init_audit(&scratch);
+            let rt = tokio::runtime::Builder::new_multi_thread()
+                .worker_threads(2)
+                .enable_all()
+                .build()
+                .unwrap();
+            rt.block_on(async {
+                for path in read_lines(&args[2]) {
+                    if let Err(e) = account_world::run_path(
+                        &path, &backends, &scratch, &mut out, &prop,
                     )
                     .await
                     {
